@@ -47,15 +47,10 @@ var _ *raft.RaftGroup
 //@ assume
 //@ ensures [t] ret != nil
 //@ modifies *
-//@ func (*storage/raft.sharedGroup).Get
-//@ props C14 C05
-//@ assume
-//@ ensures [proxy] ret != nil
-//@ modifies * except type raft.RaftGroup.raftLeaderId; type raft.RaftGroup.transport; type raft.RaftGroup.raft; type raft.RaftGroup.wal; type raft.RaftGroup.processFn; type raft.RaftGroup.processSnapshotFn; type raft.RaftGroup.snapshotFn; type raft.RaftGroup.ctx; type raft.RaftGroup.log; type raft.RaftGroup.id; type Server.zeroGroup; type Server.config; type Server.db; type Server.clusterConn; type Server.allocator
 //@ func storage/raft.NewNodesManager
-//@ props C14 C05
-//@ assume
-//@ modifies * except type raft.RaftGroup.raftLeaderId; type raft.RaftGroup.transport; type raft.RaftGroup.raft; type raft.RaftGroup.wal; type raft.RaftGroup.processFn; type raft.RaftGroup.processSnapshotFn; type raft.RaftGroup.snapshotFn; type raft.RaftGroup.ctx; type raft.RaftGroup.log; type raft.RaftGroup.id; type Server.zeroGroup; type Server.config; type Server.db; type Server.clusterConn; type Server.allocator
+//@ props C14 C05 C20
+//@ ensures [built] ret != nil && fresh(ret) && ret.clusterConn == clusterConn && ret.zeroGroup == zeroGroup
+//@ modifies nothing
 //@ func storage.NewDatasetManager
 //@ props C14 C05
 //@ assume
